@@ -44,6 +44,30 @@ def run(prog, rep, tier, repo):
     d6_loops(prog, rep)
     d8_regimes(prog, rep)
     d7_integral(prog, rep)
+    # ---- D9 ln(Gamma(x)) with an unbounded argument: Gamma overflows above 171.6 while its logarithm does not; an acceptance test
+    # `.. <= .. - gamma(k + 1).ln()` is then always false for k >= 171 and those candidates can never be returned
+    nlg = 0
+    for k_, b_ in sorted(pdb.bodies.items()):
+        if not (k_.startswith(DS) or k_.startswith('<' + DS)):
+            continue
+        f_ = prog.func(k_)
+        pool = [c for gl in f_.guards().values() for c, _ in gl] + [st.value for st in f_.stores()] + list(f_.return_values())
+        seen_ = set()
+        for t_ in pool:
+            for z in subterms(t_):
+                if tag(z) == 'call' and is_f64_method(z[1]) and f64_method_name(z[1]) == 'ln' and tag(z[2][0]) == 'call' and z[2][0][1] == 'functions::gamma::gamma' and z not in seen_:
+                    seen_.add(z)
+                    nlg += 1
+                    arg = z[2][0][2][0]
+                    bounded = tag(arg) == 'const'
+                    key_ = 'ln-of-gamma:%s' % short(k_)
+                    if bounded:
+                        rep.ok('ln-of-gamma', key_, 'constant argument')
+                    else:
+                        rep.viol('ln-of-gamma', key_, 'ln(Gamma(%s)) is formed by taking the logarithm of gamma(): for arguments above 171.6 Gamma is +inf, the logarithm is +inf and any test '
+                                 'against it degenerates (PTRS then rejects every candidate k >= 171 that needs the log test: Poisson(160) draws have mean 158.97); '
+                                 'use the log-gamma function' % show(arg)[:40], site_of(f_.body))
+    rep.ok('ln-of-gamma', 'ln-of-gamma:scan', '%d ln(gamma(.)) compositions in distributions::' % nlg)
     from ..chunks import check_chunk_remainder
     check_chunk_remainder(prog, rep, 'chunk-remainder', lambda k: 'distributions::' in k)
     rep.trusted.append('alea::f64() lies in [0, 1)')
